@@ -620,6 +620,12 @@ class Executor:
 
     def store_subscript(self, target, v):
         st = self.st
+        if isinstance(target.value, ast.Attribute) and target.value.attr == "at" and isinstance(target.slice, ast.Tuple) and len(target.slice.elts) == 2:
+            df = self.eval(target.value.value)
+            if isinstance(df, VRef) and st.obj(df.ref)["kind"] == "df":
+                row, col = self.eval(target.slice.elts[0]), self.eval(target.slice.elts[1])
+                self.lib.df_store(self, df, row, col, v, target)
+                return
         o = self.eval(target.value)
         if isinstance(o, VRef) and st.obj(o.ref)["kind"] == "rec":
             k = self.eval(target.slice)
@@ -862,6 +868,9 @@ class Executor:
             self.st.set_field(r, name, same_type_fresh(cur, name, self.st))
             return
         o = self.st.heap[ref]
+        if o["kind"] == "df":
+            self.st.update(ref, cols={c: self.st.fresh_const(f"df!{c}", t.sort()) for c, t in o["cols"].items()})
+            return
         if o["kind"] == "solver":
             self.st.update(ref, A=self.st.fresh_const("A", L.WSet))
         else:
@@ -908,6 +917,9 @@ class Executor:
                         root = root.value
                     if isinstance(root, ast.Name):
                         v = ex.st.env.get(root.id)
+                        if isinstance(v, VRef) and ex.st.obj(v.ref)["kind"] == "df":
+                            heap.add(v.ref)
+                            return
                         if isinstance(v, VRef):
                             raise Unsupported("loop body stores into an object/record")
                         names.add(root.id)
@@ -1185,6 +1197,7 @@ class Executor:
         if isinstance(v, VStr):
             if v.const is not None:
                 return z3.BoolVal(bool(v.const))
+            return v.t != VStr(const="").t
         raise Unsupported(f"truth value of {v.ty}")
 
     def expr_UnaryOp(self, node):
@@ -1523,6 +1536,7 @@ class Executor:
         cst = st.snapshot()
         cst.env = bound
         cview = View(self, cst)
+        cview.old = cview  # at a call site the callee's entry state is the current state
         pre = ct.requires(cview)
         self.oblige(f"pre@call:{ct.qual.split(':')[1]}", node, pre)
         self.called = getattr(self, "called", set())
